@@ -390,7 +390,7 @@ pub fn run(tier: Tier) -> i32 {
         }
     }
     rep.set("rule", json!(format!("(single) 9 reference elements with known boxes (rects incl. negative/fractional, circle, ellipse, reversed line, box, point, group of two rects) referenced by #id and by ^ x dependent {{rect, circle, ellipse}} in 2 size spellings x {} relspec forms: 4 directions x 4 gaps; 23 locations (9 named + 14 edge offsets abs/negative/percent/over 100%) x 5 dx-dy forms x 10 anchors (xy, cxy, xy + 8 xy-loc values); per-axis x/x2/cx and y/y2/cy with locations and with 9 scalar pairs (~x ~y ~x2 ~y2 ~cx ~cy ~w ~h ~r ~rx ~ry ~x1 ~y1) x 4 deltas (none, abs, percent, negative); bare references; 8 relative-size forms (wh=#r, percent, abs pair, ~h/~w, dw/dh abs/percent, ~rx){}. (chains) all ordered pairs of a 14-form covering set as 2-link chains and 3-link chains over 6 forms, mixing #id and ^ links, the model's expected box of each link feeding the next. Oracle: reference layout model in f64 on the known boxes; the output element's native geometry must describe the expected box within 0.0005 per rounded intermediate. Non-trivial = Ok and all boxes as expected.", fs.len(), if tier == Tier::Quick { " (quick: every third combination of the location/scalar forms, all direction/size forms)" } else { "" })));
-    rep.set("also_later", json!("Rounds 4-5 added: viewport elements with content placed like their empty forms; polygon / polyline placed by the box of their points; <use> of targets given by their centre or not at the origin (direction, location, cxy, plain x / y); '^' after an <if> / group whose last element waited."));
+    rep.set("also_later", json!("Round 7 (seed C09d) added the offset-attribute leg: dx / dy / dxy as attributes (5 forms) on a relatively placed rect / circle / ellipse, for 12 covering relspec forms x 9 references x #id / ^. Rounds 4-5 added: viewport elements with content placed like their empty forms; polygon / polyline placed by the box of their points; <use> of targets given by their centre or not at the origin (direction, location, cxy, plain x / y); '^' after an <if> / group whose last element waited."));
     rep.set("also", json!("Also: the dependent element written with an explicit end tag, with a <title> child, with a comment as content, and with white space before the reference (on two references); <box> and <point> as dependent elements, observed through probe elements at their corners; '^' after / in / following a deferred element."));
     if deep {
         let r = rep.coverage.get("rule").and_then(|v| v.as_str()).unwrap_or("").to_string();
@@ -470,6 +470,36 @@ pub fn run(tier: Tier) -> i32 {
     let st = run_space(chains.len(), |i| check_chain(chains[i].0, &chains[i].1).unwrap_or(CaseResult { case_hash: hash64(&("na-chain", i)), nontrivial: false, outcome_hash: 0, executions: 0, violation: None }));
     rep.sample(json!({"leg": "chains", "links": chains[chains.len() / 2].1.iter().map(|l| form_class(&l.2)).collect::<Vec<_>>()}));
     rep.absorb("chains", st);
+    // seventh round (seed C09d): the element's own dx / dy / dxy attribute moves it after the relative placement,
+    // for every kind of dependent element and every covering form
+    const OFFSETS: &[(&str, f64, f64)] = &[("dxy=\"3 7\"", 3., 7.), ("dx=\"3\"", 3., 0.), ("dy=\"4\"", 0., 4.), ("dx=\"-2\" dy=\"5.5\"", -2., 5.5), ("dxy=\"2\"", 2., 2.)];
+    let mut offs: Vec<(usize, bool, Dep, usize, usize, usize)> = Vec::new();
+    for ri in 0..REFS.len() {
+        for by_prev in [false, true] {
+            for d in deps {
+                for size in 0..2 {
+                    for ci in 0..12 {
+                        for oi in 0..OFFSETS.len() {
+                            offs.push((ri, by_prev, d, size, ci, oi));
+                        }
+                    }
+                }
+            }
+        }
+    }
+    let st = run_space(offs.len(), |i| {
+        let (ri, bp, d, size, ci, oi) = offs[i];
+        let na = CaseResult { case_hash: hash64(&("na-offset", i)), nontrivial: false, outcome_hash: 0, executions: 0, violation: None };
+        let r = &REFS[ri];
+        let rb = BBox::new(r.bbox.0, r.bbox.1, r.bbox.2, r.bbox.3);
+        let Some((src, exp)) = build(&cover[ci], d, size, &rb, if bp { "^" } else { "#r" }, "e") else { return na };
+        let Some(open) = src.strip_suffix("/>") else { return na };
+        let (osrc, dx, dy) = OFFSETS[oi];
+        let doc = format!("{}{open} {osrc}/>", r.src);
+        verify(&doc, &[("e", BBox::new(exp.x1 + dx, exp.y1 + dy, exp.x2 + dx, exp.y2 + dy))], &format!("offset-attribute/{}/{}/{}/o{oi}", r.name, dep_name(d), form_class(&cover[ci])), 1)
+    });
+    rep.sample(json!({"leg": "offset-attribute", "doc": format!("{}<ellipse id=\"e\" xy=\"#r|h 2\" rxy=\"3 2\" dxy=\"3 7\"/>", REFS[0].src)}));
+    rep.absorb("offset-attribute", st);
     // `^` is the previous element of the DOCUMENT, also when that element (or the one using `^`) had to wait
     // for a forward reference
     let prev_docs: Vec<(&str, &str, BBox)> = vec![
